@@ -231,9 +231,12 @@ class DataConnection(Connection, abc.ABC):
         :raise ConnectionFailedError: raised when connection failed or timed out
         """
         adapter.info("connecting", extra=self.__dict__)
-        await self.set_state(ConnectionState.CONNECTING)
 
         try:
+            # Reported inside the block: a listener of this event can suspend
+            # and the task can get cancelled there as well
+            await self.set_state(ConnectionState.CONNECTING)
+
             async with atimeout(timeout):
                 self._reader, self._writer = await asyncio.open_connection(
                     self.hostname, self.port)
